@@ -20,18 +20,21 @@ from vf import symx as sx, obl, simx
 PN = ["a", "b", "g"]
 
 SNAPS = {
-    "S": lambda: qp.Snapshot(),
-    "S:tagA": lambda: qp.Snapshot("tagA"),
-    "S:expvalZ0": lambda: qp.Snapshot(measurement=qp.expval(qp.PauliZ(0))),
-    "S:tagB:probs": lambda: qp.Snapshot("tagB", measurement=qp.probs(wires=[1, 0])),
-    "S:expvalX1Y0": lambda: qp.Snapshot("xy", measurement=qp.expval(qp.PauliX(1) @ qp.PauliY(0))),
-    "S:dm1": lambda: qp.Snapshot("dm", measurement=qp.density_matrix(wires=[1])),
+    "S": lambda w: qp.Snapshot(),
+    "S:tagA": lambda w: qp.Snapshot("tagA"),
+    "S:expvalZ0": lambda w: qp.Snapshot(measurement=qp.expval(qp.PauliZ(w(0)))),
+    "S:tagB:probs": lambda w: qp.Snapshot("tagB", measurement=qp.probs(wires=[w(1), w(0)])),
+    "S:expvalX1Y0": lambda w: qp.Snapshot("xy", measurement=qp.expval(qp.PauliX(w(1)) @ qp.PauliY(w(0)))),
+    "S:dm1": lambda w: qp.Snapshot("dm", measurement=qp.density_matrix(wires=[w(1)])),
 }
 GATES = {
-    "RX(a)0": lambda p: qp.RX(p[0], 0), "RY(b)1": lambda p: qp.RY(p[1], 1), "CNOT01": lambda p: qp.CNOT([0, 1]), "H0": lambda p: qp.Hadamard(0), "CRZ(g)10": lambda p: qp.CRZ(p[2], [1, 0]),
-    "RZ(g)1": lambda p: qp.RZ(p[2], 1), "X1": lambda p: qp.PauliX(1), "IsingXY(a)01": lambda p: qp.IsingXY(p[0], [0, 1]), "RY(g)2": lambda p: qp.RY(p[2], 2), "CNOT12": lambda p: qp.CNOT([1, 2]),
-    "S0": lambda p: qp.S(0),
+    "RX(a)0": lambda p, w: qp.RX(p[0], w(0)), "RY(b)1": lambda p, w: qp.RY(p[1], w(1)), "CNOT01": lambda p, w: qp.CNOT([w(0), w(1)]), "H0": lambda p, w: qp.Hadamard(w(0)),
+    "CRZ(g)10": lambda p, w: qp.CRZ(p[2], [w(1), w(0)]), "RZ(g)1": lambda p, w: qp.RZ(p[2], w(1)), "X1": lambda p, w: qp.PauliX(w(1)), "IsingXY(a)01": lambda p, w: qp.IsingXY(p[0], [w(0), w(1)]),
+    "RY(g)2": lambda p, w: qp.RY(p[2], w(2)), "CNOT12": lambda p, w: qp.CNOT([w(1), w(2)]), "S0": lambda p, w: qp.S(w(0)),
 }
+# wire labelings: logical index -> label.  Non-contiguous / non-integer labels make map_to_standard_wires (and with it
+# Snapshot.map_wires) do real work in the device routes.
+LABELS = {"": lambda i: i, " @wires(1,2,4)": lambda i: (1, 2, 4)[i], " @wires(b,a,c)": lambda i: ("b", "a", "c")[i]}
 CIRCUITS = {
     "snap first/middle/last": ["S", "RX(a)0", "RY(b)1", "S:tagA", "CNOT01", "S"],
     "consecutive snapshots": ["H0", "RY(b)1", "S", "S:expvalZ0", "CRZ(g)10", "S:tagB:probs", "RX(a)0"],
@@ -41,15 +44,27 @@ CIRCUITS = {
     "snapshot before any gate on wire 1": ["H0", "S:tagB:probs", "IsingXY(a)01", "S0", "S:expvalX1Y0"],
     "only snapshots at the end": ["RX(a)0", "CNOT01", "RY(b)1", "S:tagA", "S"],
 }
-SNAPS["S:dm1x"] = lambda: qp.Snapshot("dm after X", measurement=qp.density_matrix(wires=[1]))
+SNAPS["S:dm1x"] = lambda w: qp.Snapshot("dm after X", measurement=qp.density_matrix(wires=[w(1)]))
 FINALS = {
-    "expval Z0, probs[1]": lambda: [qp.expval(qp.PauliZ(0)), qp.probs(wires=[1])],
-    "expval X0@Z1": lambda: [qp.expval(qp.PauliX(0) @ qp.PauliZ(1))],
+    "expval Z0, probs[1]": lambda w: [qp.expval(qp.PauliZ(w(0))), qp.probs(wires=[w(1)])],
+    "expval X0@Z1": lambda w: [qp.expval(qp.PauliX(w(0)) @ qp.PauliZ(w(1)))],
 }
 
 
+def split_name(cname):
+    for lab in LABELS:
+        if lab and cname.endswith(lab):
+            return cname[: -len(lab)], LABELS[lab]
+    return cname, LABELS[""]
+
+
 def build(cname, p):
-    return [SNAPS[k]() if k.startswith("S") and k in SNAPS else GATES[k](p) for k in CIRCUITS[cname]]
+    base, w = split_name(cname)
+    return [SNAPS[k](w) if k.startswith("S") and k in SNAPS else GATES[k](p, w) for k in CIRCUITS[base]]
+
+
+def finals(cname, fname):
+    return FINALS[fname](split_name(cname)[1])
 
 
 def oracle_dm(psi, wires, W):
@@ -97,10 +112,10 @@ def _flat(x):
 
 def _num(cname, fname, params, route):
     ops = build(cname, list(params))
-    tape = qp.tape.QuantumScript(ops, FINALS[fname]())
+    tape = qp.tape.QuantumScript(ops, finals(cname, fname))
     exp, gates_only = expected_snapshots(ops, None)
     dev = qp.device("default.qubit")
-    clean = qp.tape.QuantumScript(gates_only, FINALS[fname]())
+    clean = qp.tape.QuantumScript(gates_only, finals(cname, fname))
     ref_final = dev.execute(clean)
     worst, where = 0.0, None
     if route == "transform":
@@ -157,7 +172,7 @@ def work(item):
     def b(S):
         ps = [S.param(x) for x in PN]
         ops = build(cname, ps)
-        tape = qp.tape.QuantumScript(ops, FINALS[fname]())
+        tape = qp.tape.QuantumScript(ops, finals(cname, fname))
         exp, gates_only = expected_snapshots(ops, None)
         if route == "transform":
             tapes, fn = qp.snapshots(tape)
@@ -250,6 +265,10 @@ def work(item):
 def run(ctx):
     ctx.level = "proof"
     items = [(c, f, r) for c in CIRCUITS for f in FINALS for r in ("transform", "device debugger", "default.mixed debugger")]
+    for lab in LABELS:
+        if lab:
+            for c in ("expval and probs snapshots", "density matrix snapshot", "snapshot before any gate on wire 1", "three wires, late wire"):
+                items += [(c + lab, "expval Z0, probs[1]", r) for r in ("transform", "device debugger", "default.mixed debugger")]
     if ctx.only:
         items = [it for it in items if ctx.only in f"snapshots via {it[2]} on {it[0]} [{it[1]}]"]
     ctx.shapes = len(items)
@@ -257,7 +276,7 @@ def run(ctx):
     from pennylane.devices.qubit.apply_operation import apply_snapshot
 
     ctx.encode(qp.snapshots, apply_snapshot, get_final_state, measure_final_state)
-    ctx.bound(parameters="all real gate angles (3 symbols)", circuits=list(CIRCUITS), snapshot_kinds=list(SNAPS), routes=["qp.snapshots tape transform + lifted default.qubit", "default.qubit with an active snapshot debugger", "default.mixed with an active snapshot debugger"],
+    ctx.bound(parameters="all real gate angles (3 symbols)", circuits=list(CIRCUITS), wire_labelings=["0,1,2", "1,2,4 (non-contiguous)", "b,a,c (strings)"], snapshot_kinds=list(SNAPS), routes=["qp.snapshots tape transform + lifted default.qubit", "default.qubit with an active snapshot debugger", "default.mixed with an active snapshot debugger"],
               outside="snapshots with shots (sampling), QNode wrapper plumbing (qp.snapshots(qnode)), default.gaussian / legacy devices, duplicate string tags")
     ctx.assume(*sx.SHIM_NOTES, "prefix tapes of the transform are compared in the wire order of the generated tape (the transform keeps only the wires used so far)")
     ctx.rule = "one obligation per (circuit, final measurements, route, snapshot or final result); non-trivial = mentions a symbolic angle"
